@@ -19,7 +19,9 @@ def run(ctx):
         MODULE,
         "shared traced run: seeded sample of the 5 032 validation reactions (whole set in the thorough tier) + 50 specials "
         "(redox pairs reaching every reagent template, Z>86, ions, placeholders, peroxides, atom maps), two batches, 12 workers; "
-        "every row compared with the Lean row machine after each of the 11 stages; independent statement: RDKit composition by "
+        "every row compared with the Lean row machine after each of the 11 stages; untraced runs of a seeded set under 5 "
+        "configurations (default, caller-chosen column names with own ids, one worker with batches of 3, threshold 0.5, atom "
+        "maps kept on fully mapped inputs); independent statement: RDKit composition by "
         "atomic number and formal charge of every solved row (non-trivial = solved by a method other than input-balanced; "
         "distinct by returned reaction)",
         ["truth = RDKit AddHs atom list read by atomic number and formal charge"],
@@ -31,6 +33,7 @@ def run(ctx):
             ctx.corr_break("Pipeline:run-raised", {"n": len(tr["inputs"])}, "model never raises", tr["error"])
         else:
             statement(ctx, tr)
+            pipeline.each_config(ctx, lambda name, c: statement(ctx, c))
             ctx.sample({"input": tr["out"][-3]["input_reaction"], "returned": tr["out"][-3]["reaction"],
                         "solved_by": tr["out"][-3].get("solved_by")})
             ctx.sample({"stats": tr["stats"], "rows": len(tr["out"]), "wall_s": round(tr["wall"], 1)})
